@@ -28,6 +28,8 @@ pub struct HistSpec {
     pub stop_on_taint: bool,
     pub nontrivial: fn(&Events) -> bool,
     pub post: Post,
+    /// a panic inside one of these crate operations counts as a violation of this property
+    pub panic_ops: Vec<&'static str>,
 }
 
 /// state-level checks run on the final state of a history
@@ -37,6 +39,18 @@ pub enum Post {
     C11,
     C12,
     C20,
+}
+
+/// A panic inside one of the operations a property is about is a violation of that property too.
+pub fn retag_panic(f: &mut Fail, id: &'static str, ops: &[&'static str]) {
+    if f.prop == "C20" && id != "C20" {
+        if let Some(op) = f.sig.strip_prefix("C20:panic:") {
+            if ops.iter().any(|o| op == *o || (o.ends_with('*') && op.starts_with(o.trim_end_matches('*')))) {
+                f.prop = id;
+                f.sig = format!("{id}:panic:{op}");
+            }
+        }
+    }
 }
 
 pub fn ev_has(e: &Events, k: &str) -> bool {
@@ -159,6 +173,9 @@ pub fn exec_hist<P: TP>(case: &Case, spec: &HistSpec, known: &BTreeSet<String>, 
             env.ev("ended_by_known_consequence");
             res.fail = None;
         }
+    }
+    if let Some(f) = &mut res.fail {
+        retag_panic(f, spec.id, &spec.panic_ops);
     }
     res.nontrivial = (spec.nontrivial)(&env.ev);
     res.known_hits = env.known_hits.clone();
